@@ -144,7 +144,17 @@ def ring_check(region, bbox, obs):
         obs.ok(int(dec.sum()), 'ring')
 
 
+def driver_extra(tier, seed, rundir):
+    """thorough tier: the repository's own test-suite as an additional, organically shaped workload for the same monitor."""
+    if tier != 'thorough':
+        return None
+    from vmon import suite
+    return suite.run_suite_lane(ID, 'bbox')
+
+
 def run_case(case, obs):
+    if case['lane'].startswith('suite:'):
+        return monitors.replay_suite_case(case, obs)
     lane = case['lane']
     prng = random.Random(case['rs'])
     if lane in ('random', 'compound'):
